@@ -891,13 +891,20 @@ def run(rep, pdb, tier):
         tail = fn["body"].get("expr")
         tt = ctx.term(tail) if tail is not None else None
         ft_err = tt is not None and tt[0] == "call" and str(tt[1]).endswith("::Err")
-        others = []
+        others, restarts = [], []
         for r_ in rets:
             v = strip(r_["e"]) if r_.get("e") is not None else None
             p = v["f"].get("fn", "") if v is not None and v.get("k") == "Call" and strip(v["f"]).get("k") == "Def" else ""
             if not (p.endswith("::Ok") or p.endswith("::Err")):
-                others.append(loc(r_))
-        rep.add("breakdown-is-err/%s" % name, "every return is Ok(..) or Err(..), and the fall-through after the loop is Err(..)", ft_err and not others, tail or fn["body"], "fall-through Err=%s other returns=%s" % (ft_err, others))
+                rs = restart_of(sv, r_)
+                if rs is not None:
+                    restarts.append((r_, rs))
+                else:
+                    others.append(loc(r_))
+        rep.add("breakdown-is-err/%s" % name, "every return is Ok(..), Err(..) or a restart of the same solver, and the fall-through after the loop is Err(..)", ft_err and not others, tail or fn["body"], "fall-through Err=%s other returns=%s restarts=%d" % (ft_err, others, len(restarts)))
+        for k_, (r_, (okr, detr)) in enumerate(sorted(restarts, key=lambda z: _pos(z[0])), 1):
+            rep.add("restart/%s#%d" % (name, k_), "a restart hands the same b, x and tol to the same solver with the budget that is left (max_iter - counter, which cannot underflow inside the loop) and adds the "
+                    "counter to the count it reports: the total stays within max_iter, a budget of zero still leaves x untouched, and success is still only reported by a confirmed exit", okr, r_, detr)
         # ---- success is confirmed on the residual recomputed from the x that is returned
         oks = sorted([n for n in rets if any(a is sv.main for a in ancestors(n)) and _is_ok(n)], key=_pos)
         for k_, node in enumerate(oks, 1):
@@ -984,6 +991,46 @@ def rule_recurrence(rep, sv, name, r):
                 rep.add("tested-vector/%s/%s/%s#%d" % (name, case, show(V, ctx), [e[1] for e in m.exits if e[0] == "ok"].index(node) + 1),
                         "the vector whose norm was tested is the residual of the x that is returned (pending x updates are applied before returning)",
                         not z, node, "V - r_top + A*(x - x_top) = %s" % (_show_vec(z, ctx) if z else "0"), proof=True)
+
+
+def restart_of(sv, n):
+    """`return self.<this solver>(b, x, max_iter - counter, tol[, itol]).map(|k| k + counter)` (also written as a match with
+    `Ok(k) => Ok(k + counter), Err(e) => Err(e)`): the solver restarted from the current iterate with what is left of the
+    budget.  Returns (ok, detail) or None when n is not a call of the solver on itself."""
+    ctx = sv.ctx
+    from .terms import lin_add
+    v = strip(n["e"]) if n.get("e") is not None else None
+    if v is None:
+        return None
+    own = "%s::%s" % (S64, sv.name)
+    inner, add_ok = None, False
+    if v.get("k") == "MethodCall" and v.get("name") == "map" and len(v.get("args", [])) == 1:
+        rc = strip(v["recv"])
+        cl = strip(v["args"][0])
+        if rc.get("k") == "MethodCall" and callee_path(rc) == own and cl.get("k") == "Closure" and len(cl.get("params", [])) == 1 and cl["params"][0].get("k") == "Bind":
+            inner = rc
+            k = ("var", cl["params"][0]["v"])
+            add_ok = sv.counter is not None and ctx.term(cl["body"]) == lin_add(k, sv.counter)
+    elif v.get("k") == "Match":
+        rc = strip(v.get("e") or v.get("scrut") or {})
+        if rc.get("k") == "MethodCall" and callee_path(rc) == own:
+            inner = rc
+            t = ctx.term(v)
+            add_ok = False          # spelled as a match: not recognised (fail closed)
+    elif v.get("k") == "MethodCall" and callee_path(v) == own:
+        inner, add_ok = v, False    # the bare recursive result would report k, not counter + k
+    if inner is None:
+        return None
+    args = [ctx.term(a) for a in call_args(inner)]
+    want = [P(0), B_, X_, lin_add(MAXIT, ("lin", 0, ((sv.counter, -1),))) if False else None, TOL]
+    budget_ok = False
+    if sv.counter is not None and len(args) >= 5:
+        from fractions import Fraction
+        budget_ok = args[3] == ("lin", Fraction(0), ((MAXIT, Fraction(1)), (sv.counter, Fraction(-1)))) or args[3] == ("op", "-", MAXIT, sv.counter)
+    same = len(args) >= 5 and args[0] == P(0) and args[1] == B_ and args[2] == X_ and args[4] == TOL and all(a == P(5 + i) for i, a in enumerate(args[5:]))
+    inside = any(a is sv.main for a in ancestors(n))
+    ok = same and budget_ok and add_ok and inside
+    return ok, "same b, x, tol (and itol)=%s budget max_iter - counter=%s Ok adds the counter=%s inside the loop=%s" % (same, budget_ok, add_ok, inside)
 
 
 def _is_ok(n):
